@@ -491,8 +491,24 @@ class Evaluator:
                             break
                     if verdicts is not None:
                         return any(verdicts)
-        args = [self.ev(a) for a in n.args]
-        kwargs = {k.arg: self.ev(k.value) for k in n.keywords}
+        args = []
+        for a in n.args:
+            if isinstance(a, ast.Starred):
+                spread = self.ev(a.value)
+                if not isinstance(spread, (list, tuple)):
+                    raise Unsupported('*%s of a value that is not a list or tuple' % ast.unparse(a.value)[:40])
+                args.extend(spread)
+            else:
+                args.append(self.ev(a))
+        kwargs = {}
+        for k in n.keywords:
+            if k.arg is None:
+                spread = self.ev(k.value)
+                if not isinstance(spread, dict):
+                    raise Unsupported('**%s of a value that is not a dict' % ast.unparse(k.value)[:40])
+                kwargs.update(spread)
+            else:
+                kwargs[k.arg] = self.ev(k.value)
         d = ast.unparse(n.func)
         if (d in DOTTED_CALLS or d in DOTTED) and d.split('.')[0] not in self.env:
             try:
